@@ -16,10 +16,10 @@ import (
 
 type tkScript struct {
 	// marshal
-	mKind  byte // 'd' data, 'e' error, 'p' panic
-	mData  []byte
-	mNil   bool // produced slice is nil
-	mText  string
+	mKind byte // 'd' data, 'e' error, 'p' panic
+	mData []byte
+	mNil  bool // produced slice is nil
+	mText string
 	// unmarshal
 	uKind byte // 'o' ok, 'e' error, 'p' panic
 	uSet  bool
@@ -28,8 +28,9 @@ type tkScript struct {
 }
 
 type tkWorld struct {
-	scripts []tkScript
-	rec     *tkRec
+	scripts    []tkScript
+	rec        *tkRec
+	hookPanics int // rotates the dynamic type of the value a panicking hook panics with
 }
 
 var tkW *tkWorld // the world of the helper call in progress (helpers are run one at a time)
@@ -64,7 +65,8 @@ func tkMarshal(idx int) ([]byte, error) {
 	case 'e':
 		return out, errors.New(s.mText)
 	default:
-		panic(s.mText)
+		tkPanic(s.mText)
+		return nil, nil
 	}
 }
 
@@ -81,8 +83,75 @@ func tkUnmarshal(data []byte, set func(int)) error {
 	case 'e':
 		return errors.New(s.uText)
 	default:
-		panic(s.uText)
+		tkPanic(s.uText)
+		return nil
 	}
+}
+
+// tkBoom is a panic value that is neither a string nor an error.
+type tkBoom struct {
+	Code int
+	What string
+}
+
+type tkErrCode int
+
+func (e tkErrCode) Error() string { return "code " + strconv.Itoa(int(e)) }
+
+var tkZero int // not a constant: the index expressions below must compile
+
+// tkPanicTexts: scripted panic texts whose panic value is not a string. The protocol (and the model) carry the text the
+// helper will format with %v; which dynamic type produces that text is the harness's business: real runtime errors
+// (nil-map write, index out of range, nil dereference, failed type assertion, integer division by zero), error values,
+// an int, a struct, a Stringer-less pointer-free value, panic(nil).
+var tkPanicTexts = []string{
+	"assignment to entry in nil map",
+	"runtime error: index out of range [3] with length 0",
+	"runtime error: invalid memory address or nil pointer dereference",
+	"runtime error: integer divide by zero",
+	"interface conversion: interface {} is string, not int",
+	"plain error value",
+	"wrapped: inner cause",
+	"code 7",
+	"42",
+	"{7 overflow}",
+	"[1 2 3]",
+	"panic called with nil argument",
+}
+
+// tkPanic panics with a value whose %v rendering is text.
+func tkPanic(text string) {
+	switch text {
+	case "assignment to entry in nil map":
+		var m map[string]int
+		m["x"] = 1
+	case "runtime error: index out of range [3] with length 0":
+		var sl []int
+		_ = sl[3+tkZero]
+	case "runtime error: invalid memory address or nil pointer dereference":
+		var p *tkBoom
+		_ = p.Code
+	case "runtime error: integer divide by zero":
+		_ = 1 / tkZero
+	case "interface conversion: interface {} is string, not int":
+		var x any = "s"
+		_ = x.(int)
+	case "plain error value":
+		panic(errors.New(text))
+	case "wrapped: inner cause":
+		panic(fmt.Errorf("wrapped: %w", errors.New("inner cause")))
+	case "code 7":
+		panic(tkErrCode(7))
+	case "42":
+		panic(42)
+	case "{7 overflow}":
+		panic(tkBoom{7, "overflow"})
+	case "[1 2 3]":
+		panic([]int{1, 2, 3})
+	case "panic called with nil argument":
+		panic(nil)
+	}
+	panic(text)
 }
 
 // tv: value-receiver Marshal*, pointer-receiver Unmarshal*
@@ -108,14 +177,78 @@ func (v *tp) UnmarshalJSON(d []byte) error   { return tkUnmarshal(d, func(x int)
 // tn: no methods
 type tn struct{ Idx, X int }
 
+// tkEdit is what a scripted hook writes into the *Case it is handed (protocol: `;`-separated items after the hook kind:
+// d=<hex|nil> Data, v=<int> the number of Value, r=<pred> Error, c=<n> Constraint)
+type tkEdit struct {
+	hasData, dataNil, hasValue, hasPred, hasConstraint bool
+	data                                               []byte
+	value, constraint                                  int
+	pred                                               string
+}
+
+func (e tkEdit) any() bool { return e.hasData || e.hasValue || e.hasPred || e.hasConstraint }
+
 type tkCase struct {
-	constraint    int
-	before, after byte // n o e p
-	pred          string
-	script        tkScript
-	data          []byte
-	dataNil       bool
-	value         int
+	constraint            int
+	before, after         byte // n o e p
+	beforeEdit, afterEdit tkEdit
+	pred                  string
+	script                tkScript
+	data                  []byte
+	dataNil               bool
+	value                 int
+}
+
+func parseTkHook(s string, allowValue bool) (byte, tkEdit) {
+	parts := strings.Split(s, ";")
+	if len(parts[0]) != 1 || !strings.Contains("noep", parts[0]) || (parts[0] == "n" && len(parts) > 1) {
+		panic("bad hook " + s)
+	}
+	var e tkEdit
+	for _, it := range parts[1:] {
+		switch {
+		case strings.HasPrefix(it, "d="):
+			e.hasData = true
+			e.data, e.dataNil = optBytesOf(it[2:])
+		case strings.HasPrefix(it, "v=") && allowValue:
+			e.hasValue, e.value = true, atoi(it[2:])
+		case strings.HasPrefix(it, "r="):
+			e.hasPred, e.pred = true, it[2:]
+			tkPredFunc(e.pred) // validates
+		case strings.HasPrefix(it, "c="):
+			e.hasConstraint, e.constraint = true, atoi(it[2:])
+			if e.constraint < 0 {
+				panic("bad hook " + s)
+			}
+		default:
+			panic("bad hook " + s)
+		}
+	}
+	return parts[0][0], e
+}
+
+// tkEffective is the case as completed by its hooks (the literal with the last thing a present hook wrote into Data,
+// Value and Error; a Constraint written by a hook comes too late to matter): what the independent oracle judges.
+func tkEffective(c tkCase) tkCase {
+	e := c
+	for _, h := range []struct {
+		kind byte
+		ed   tkEdit
+	}{{c.before, c.beforeEdit}, {c.after, c.afterEdit}} {
+		if h.kind == 'n' {
+			continue
+		}
+		if h.ed.hasData {
+			e.data, e.dataNil = h.ed.data, h.ed.dataNil
+		}
+		if h.ed.hasValue {
+			e.value = h.ed.value
+		}
+		if h.ed.hasPred {
+			e.pred = h.ed.pred
+		}
+	}
+	return e
 }
 
 func optBytesOf(s string) ([]byte, bool) { // (bytes, isNil)
@@ -130,7 +263,9 @@ func parseTkCase(s string) tkCase {
 	if len(f) != 8 {
 		panic("bad case " + s)
 	}
-	c := tkCase{constraint: atoi(f[0]), before: f[1][0], after: f[2][0], pred: f[3], value: atoi(f[7])}
+	c := tkCase{constraint: atoi(f[0]), pred: f[3], value: atoi(f[7])}
+	c.before, c.beforeEdit = parseTkHook(f[1], true)
+	c.after, c.afterEdit = parseTkHook(f[2], false)
 	m := strings.Split(f[4], ":")
 	c.script.mKind = m[0][0]
 	switch m[0] {
@@ -258,14 +393,19 @@ func (h *tkTypeHelper[T]) AssertEqual(t test.TestingT, expected, actual T, failI
 	}
 }
 
-func tkHook[C any](k byte, idx int) func(int, *C) error {
+func tkHook[C any](k byte, idx int, edit func(*C)) func(int, *C) error {
 	switch k {
 	case 'o':
-		return func(int, *C) error { tkW.rec.cur = idx; return nil }
+		return func(_ int, c *C) error { tkW.rec.cur = idx; edit(c); return nil }
 	case 'e':
-		return func(int, *C) error { tkW.rec.cur = idx; return errors.New("hook failed") }
+		return func(_ int, c *C) error { tkW.rec.cur = idx; edit(c); return errors.New("hook failed") }
 	case 'p':
-		return func(int, *C) error { tkW.rec.cur = idx; panic("hook panicked") }
+		return func(_ int, c *C) error {
+			tkW.rec.cur = idx
+			edit(c)
+			tkPanic(tkPanicTexts[(idx+tkW.hookPanics)%len(tkPanicTexts)])
+			return nil
+		}
 	}
 	return nil
 }
@@ -286,8 +426,25 @@ func runTk[T any](helper string, cases []tkCase, hb *tkHelperBeh, mk func(idx, x
 			if helper == "UT" {
 				d = strconv.Itoa(i)
 			}
-			cs = append(cs, test.CaseText[T]{Constraint: test.Constraint(c.constraint), Before: tkHook[test.CaseText[T]](c.before, i),
-				After: tkHook[test.CaseText[T]](c.after, i), Error: tkPredFunc(c.pred), Data: d, Value: v})
+			i := i
+			ed := func(e tkEdit) func(*test.CaseText[T]) {
+				return func(cc *test.CaseText[T]) {
+					if e.hasData && helper[0] == 'M' { // (the Unmarshal scripts are addressed by Data: left alone there)
+						cc.Data = string(e.data)
+					}
+					if e.hasValue {
+						cc.Value = mk(i, e.value)
+					}
+					if e.hasPred {
+						cc.Error = tkPredFunc(e.pred)
+					}
+					if e.hasConstraint {
+						cc.Constraint = test.Constraint(e.constraint)
+					}
+				}
+			}
+			cs = append(cs, test.CaseText[T]{Constraint: test.Constraint(c.constraint), Before: tkHook[test.CaseText[T]](c.before, i, ed(c.beforeEdit)),
+				After: tkHook[test.CaseText[T]](c.after, i, ed(c.afterEdit)), Error: tkPredFunc(c.pred), Data: d, Value: v})
 		}
 		if helper == "MT" {
 			test.MarshalText(tkW.rec, cs)
@@ -302,8 +459,25 @@ func runTk[T any](helper string, cases []tkCase, hb *tkHelperBeh, mk func(idx, x
 			if helper == "UJ" {
 				d = strconv.Itoa(i)
 			}
-			cs = append(cs, test.CaseJSON[T]{Constraint: test.Constraint(c.constraint), Before: tkHook[test.CaseJSON[T]](c.before, i),
-				After: tkHook[test.CaseJSON[T]](c.after, i), Error: tkPredFunc(c.pred), Data: d, Value: v})
+			i := i
+			ed := func(e tkEdit) func(*test.CaseJSON[T]) {
+				return func(cc *test.CaseJSON[T]) {
+					if e.hasData && helper[0] == 'M' {
+						cc.Data = string(e.data)
+					}
+					if e.hasValue {
+						cc.Value = mk(i, e.value)
+					}
+					if e.hasPred {
+						cc.Error = tkPredFunc(e.pred)
+					}
+					if e.hasConstraint {
+						cc.Constraint = test.Constraint(e.constraint)
+					}
+				}
+			}
+			cs = append(cs, test.CaseJSON[T]{Constraint: test.Constraint(c.constraint), Before: tkHook[test.CaseJSON[T]](c.before, i, ed(c.beforeEdit)),
+				After: tkHook[test.CaseJSON[T]](c.after, i, ed(c.afterEdit)), Error: tkPredFunc(c.pred), Data: d, Value: v})
 		}
 		if helper == "MJ" {
 			test.MarshalJSON(tkW.rec, cs)
@@ -321,8 +495,28 @@ func runTk[T any](helper string, cases []tkCase, hb *tkHelperBeh, mk func(idx, x
 			if helper == "UB" {
 				d = []byte(strconv.Itoa(i))
 			}
-			cs = append(cs, test.CaseBinary[T]{Constraint: test.Constraint(c.constraint), Before: tkHook[test.CaseBinary[T]](c.before, i),
-				After: tkHook[test.CaseBinary[T]](c.after, i), Error: tkPredFunc(c.pred), Data: d, Value: v})
+			i := i
+			ed := func(e tkEdit) func(*test.CaseBinary[T]) {
+				return func(cc *test.CaseBinary[T]) {
+					if e.hasData && helper[0] == 'M' {
+						cc.Data = nil
+						if !e.dataNil {
+							cc.Data = append([]byte{}, e.data...)
+						}
+					}
+					if e.hasValue {
+						cc.Value = mk(i, e.value)
+					}
+					if e.hasPred {
+						cc.Error = tkPredFunc(e.pred)
+					}
+					if e.hasConstraint {
+						cc.Constraint = test.Constraint(e.constraint)
+					}
+				}
+			}
+			cs = append(cs, test.CaseBinary[T]{Constraint: test.Constraint(c.constraint), Before: tkHook[test.CaseBinary[T]](c.before, i, ed(c.beforeEdit)),
+				After: tkHook[test.CaseBinary[T]](c.after, i, ed(c.afterEdit)), Error: tkPredFunc(c.pred), Data: d, Value: v})
 		}
 		if helper == "MB" {
 			test.MarshalBinary(tkW.rec, cs)
@@ -337,6 +531,9 @@ func runTk[T any](helper string, cases []tkCase, hb *tkHelperBeh, mk func(idx, x
 // tkRun executes one `test.run` line; returns the canonical answer and whether a panic escaped.
 func tkRun(helper, typ string, hb *tkHelperBeh, cases []tkCase) (out string, escaped any) {
 	w := &tkWorld{rec: &tkRec{cur: -1, reported: make([]int, len(cases))}}
+	for _, c := range cases { // which value a panicking hook panics with depends on the line only (replays agree)
+		w.hookPanics += 3*len(c.script.mText) + 5*len(c.script.uText) + 7*len(c.data) + c.value + c.constraint + 1
+	}
 	for _, c := range cases {
 		w.scripts = append(w.scripts, c.script)
 	}
@@ -564,7 +761,52 @@ func init() { props["C20"] = propC20 }
 func hxs(s string) string { return hx([]byte(s)) }
 
 func propC20(c *Ctx) {
-	msgs := []string{"boom", "bad thing", "e", "boom: nested: deep"}
+	msgs := []string{"boom", "bad thing", "e", "boom: nested: deep", "multi\nline failure", "crlf\r\nfailure", "tab\tseparated", "said \"no\"", "naïve café ✓", "trailing blank ", "ends with newline\n",
+		"\x00\xff raw", "Boom", "ＢＯＯＭ"}
+	nasty := []byte{' ', '\n', '\r', '\t', 0, '!', '"', '\\', '.', 'a', 'B', '0', 0xff, 0xc3, 0xa9, '{', ':'}
+	// edit1 applies one generic single-byte edit (substitute / insert / delete at a random position, CRLF <-> LF,
+	// case flip, a byte appended or prepended); the result always differs from b
+	edit1 := func(b []byte) []byte {
+		r := c.R
+		o := append([]byte{}, b...)
+		switch k := r.Intn(8); {
+		case k == 0 && len(o) > 0:
+			o[r.Intn(len(o))] = nasty[r.Intn(len(nasty))]
+		case k == 1 && len(o) > 0:
+			i := r.Intn(len(o))
+			o = append(o[:i], o[i+1:]...)
+		case k == 2:
+			i := r.Intn(len(o) + 1)
+			o = append(o[:i], append([]byte{nasty[r.Intn(len(nasty))]}, o[i:]...)...)
+		case k == 3:
+			switch {
+			case bytes.Contains(o, []byte("\r\n")):
+				o = bytes.Replace(o, []byte("\r\n"), []byte("\n"), 1)
+			case bytes.Contains(o, []byte("\n")):
+				o = bytes.Replace(o, []byte("\n"), []byte("\r\n"), 1)
+			default:
+				o = append(o, '\r', '\n')
+			}
+		case k == 4 && len(o) > 0:
+			i := r.Intn(len(o))
+			for j := 0; j < len(o); j++ {
+				if ch := o[(i+j)%len(o)]; ch >= 'a' && ch <= 'z' || ch >= 'A' && ch <= 'Z' {
+					o[(i+j)%len(o)] = ch ^ 0x20
+					break
+				}
+			}
+		case k == 5:
+			o = append(o, nasty[r.Intn(5)])
+		case k == 6:
+			o = append([]byte{nasty[r.Intn(5)]}, o...)
+		case len(o) > 0:
+			o = o[:len(o)-1]
+		}
+		if bytes.Equal(o, b) {
+			o = append(o, '!')
+		}
+		return o
+	}
 	optB := func(b []byte, isNil bool) string {
 		if isNil {
 			return "nil"
@@ -581,9 +823,13 @@ func propC20(c *Ctx) {
 			return []string{"n", "o", "n", "o", "o", "e", "p"}[r.Intn(7)]
 		}
 		// marshal behaviour
-		data := [][]byte{[]byte("abc"), []byte("x"), {}, []byte("{\"a\":1}")}[r.Intn(4)]
+		data := [][]byte{[]byte("abc"), []byte("x"), {}, []byte("{\"a\":1}"), []byte("a\nb"), []byte("a\r\nb"), []byte("line\n"), []byte("tab\there \"q\""), []byte("héllo wörld ✓"), {0, 0xff, '\n'},
+			[]byte("{\"k\": \"v\\n\",\n\t\"n\": [1, 2]}"), []byte(" padded ")}[r.Intn(12)]
 		mkind := []string{"d", "d", "d", "e", "e", "ed", "p", "dn", "ez"}[r.Intn(9)]
 		msg := msgs[r.Intn(len(msgs))]
+		if mkind == "p" && r.Bool() {
+			msg = tkPanicTexts[r.Intn(len(tkPanicTexts))] // a panic value that is not a string
+		}
 		var mbeh, errText string
 		panicked := false
 		switch mkind {
@@ -607,6 +853,9 @@ func propC20(c *Ctx) {
 		}
 		ukind := []string{"o", "o", "o", "k", "e", "e", "es", "p", "ps"}[r.Intn(9)]
 		umsg := msgs[r.Intn(len(msgs))]
+		if (ukind == "p" || ukind == "ps") && r.Bool() {
+			umsg = tkPanicTexts[r.Intn(len(tkPanicTexts))]
+		}
 		var ubeh, uErrText string
 		uPanicked := false
 		switch ukind {
@@ -636,16 +885,32 @@ func propC20(c *Ctx) {
 			case k == 1 && !pk:
 				pred = "eq:" + hxs(msgs[r.Intn(len(msgs))])
 				if et != "" && r.Intn(2) == 0 { // the text itself and its near misses (a lenient comparison would forgive them)
-					pred = "eq:" + hxs([]string{et, strings.ToUpper(et), et + "\n", " " + et, et[:len(et)-1], et + " "}[r.Intn(6)])
+					pred = "eq:" + hxs([]string{et, strings.ToUpper(et), et + "\n", " " + et, et[:len(et)-1], et + " ", string(edit1([]byte(et))), string(edit1([]byte(et))), et}[r.Intn(9)])
 				}
 			case k == 2:
 				p := []string{"b", "boom", "bad", "zz", "", "panic: ", "panic: boom", "e", "B", "Boom", " b", "oom"}[r.Intn(12)]
+				if et != "" && r.Intn(2) == 0 { // a real prefix of the text, or a one-byte edit of one
+					p = et[:r.Intn(len(et)+1)]
+					if pk && len(p) > len(et)-3 {
+						p = et[:len(et)-3] // the edit may add two bytes: stay inside the known part of a panic text
+					}
+					if r.Intn(2) == 0 {
+						p = string(edit1([]byte(p)))
+					}
+				}
 				if pk && len(p) > len(et) {
 					p = "panic: "
 				}
 				pred = "pre:" + hxs(p)
 			case k == 3 && !pk:
-				pred = "suf:" + hxs([]string{"m", "boom", "thing", "zz", "", "deep", "M", "Thing", "deep ", "boo"}[r.Intn(10)])
+				sfx := []string{"m", "boom", "thing", "zz", "", "deep", "M", "Thing", "deep ", "boo"}[r.Intn(10)]
+				if et != "" && r.Intn(2) == 0 {
+					sfx = et[r.Intn(len(et)+1):]
+					if r.Intn(2) == 0 {
+						sfx = string(edit1([]byte(sfx)))
+					}
+				}
+				pred = "suf:" + hxs(sfx)
 			case k == 4:
 				pat := []string{"^boom", "o+", "^nomatch", "thing", "^panic: boom", "^bad", "b.d"}[r.Intn(7)]
 				if pk {
@@ -679,7 +944,9 @@ func propC20(c *Ctx) {
 		if r.Intn(5) == 0 {
 			// near misses of every kind: "differing data" means any difference, also one a lenient comparison would forgive
 			d := append([]byte{}, data...)
-			switch r.Intn(7) {
+			switch r.Intn(14) {
+			case 7, 8, 9, 10, 11, 12, 13:
+				d = edit1(d)
 			case 0:
 				d = append(d, '!')
 			case 1:
@@ -732,7 +999,61 @@ func propC20(c *Ctx) {
 				expVal = right + hb.eqMod // equal modulo, but not a remainder: the asymmetric helper rejects it
 			}
 		}
-		return fmt.Sprintf("%d/%s/%s/%s/%s/%s/%s/%d", constraint, hook(), hook(), pred, mbeh, ubeh, optB(expData, expNil), expVal)
+		// hooks that edit the case they are handed: each present hook may write Data / Value / Error / Constraint; what it
+		// writes is the generated ("mostly right") expectation or a decoy, and when it writes the right one the literal
+		// often holds a decoy instead - the helper must judge the case as completed by its hooks
+		bh, ah := hook(), hook()
+		litData, litPred, litVal := optB(expData, expNil), pred, expVal
+		rightData, rightPred, rightVal := litData, pred, expVal
+		decoyPred := func() string {
+			switch {
+			case rightPred == "-":
+				return "any"
+			case r.Bool():
+				return "-"
+			}
+			return "eq:" + hxs("decoy")
+		}
+		for hi, hk := range []*string{&bh, &ah} {
+			if *hk == "n" || r.Intn(4) != 0 {
+				continue
+			}
+			for k := 1 + r.Intn(2); k > 0; k-- {
+				right := r.Bool()
+				switch f := r.Intn(4); {
+				case f == 0 && !strings.Contains(*hk, ";d="):
+					if right {
+						*hk += ";d=" + rightData
+						if r.Bool() {
+							litData = optB(edit1(expData), false)
+						}
+					} else {
+						*hk += ";d=" + optB(edit1(expData), false)
+					}
+				case f == 1 && !strings.Contains(*hk, ";r="):
+					if right {
+						*hk += ";r=" + rightPred
+						if r.Bool() {
+							litPred = decoyPred()
+						}
+					} else {
+						*hk += ";r=" + decoyPred()
+					}
+				case f == 2 && hi == 0 && !strings.Contains(*hk, ";v="):
+					if right {
+						*hk += ";v=" + strconv.Itoa(rightVal)
+						if r.Bool() {
+							litVal = rightVal + 1 + r.Intn(2)
+						}
+					} else {
+						*hk += ";v=" + strconv.Itoa(rightVal+1+r.Intn(2))
+					}
+				case f == 3 && !strings.Contains(*hk, ";c="):
+					*hk += ";c=" + strconv.Itoa(r.Intn(4))
+				}
+			}
+		}
+		return fmt.Sprintf("%d/%s/%s/%s/%s/%s/%s/%d", constraint, bh, ah, litPred, mbeh, ubeh, litData, litVal)
 	}
 	helpers := []string{"MT", "UT", "MB", "UB", "MJ", "UJ"}
 	types := []string{"tv", "tv", "tv", "ptp", "ptp", "tp", "tn"}
@@ -742,24 +1063,9 @@ func propC20(c *Ctx) {
 	}
 	k1Seen, withHelper := 0, 0
 	helperVsNil := map[string]int{} // custom helper's verdict vs what the nil helper would have said
-	for it := 0; it < iters; it++ {
-		helper := helpers[c.R.Intn(6)]
-		typ := types[c.R.Intn(len(types))]
-		n := c.R.Intn(5)
-		if it%10 == 0 {
-			n = 1
-		}
-		// a custom TypeHelper in about a third of the Unmarshal-helper runs (the Marshal helpers take none)
-		var hb *tkHelperBeh
-		if helper[0] == 'U' && c.R.Intn(3) == 0 {
-			hb = &tkHelperBeh{start: []int{0, 0, 1, 2, 5}[c.R.Intn(5)], addArg: c.R.Intn(3) == 0, eqMod: []int{0, 0, 2, 3}[c.R.Intn(4)]}
-			hb.emptyIs = []int{0, hb.start, hb.start, 1, 2, 7}[c.R.Intn(6)]
-			withHelper++
-		}
-		var cs []string
-		for i := 0; i < n; i++ {
-			cs = append(cs, genCase(helper[0] == 'M', hb))
-		}
+	// runLine executes one helper run as a protocol line and judges it with the independent oracle
+	runLine := func(helper, typ string, hb *tkHelperBeh, cs []string) {
+		n := len(cs)
 		line := strings.TrimRight("test.run "+helper+" "+typ+" "+strings.Join(cs, " "), " ")
 		if hb != nil {
 			line += " " + hb.String()
@@ -769,11 +1075,11 @@ func propC20(c *Ctx) {
 		c.Check(line)
 		if got == "panic-escaped" || got == "panic" {
 			c.Fail("C20.escape", line, "a panic escaped the helper")
-			continue
+			return
 		}
 		if !strings.HasPrefix(got, "=") {
 			c.Fail("C20.protocol", line, "%s", got)
-			continue
+			return
 		}
 		cases := make([]tkCase, 0, n)
 		for _, s := range cs {
@@ -787,13 +1093,14 @@ func propC20(c *Ctx) {
 			if (n > 0) != failNow {
 				c.Fail("C20.failtype", line, "got %s", got)
 			}
-			continue
+			return
 		}
 		if failNow {
 			c.Fail("C20.failnow.unexpected", line, "got %s", got)
-			continue
+			return
 		}
-		for i, cs := range cases {
+		for i, lit := range cases {
+			cs := tkEffective(lit) // the case as completed by its hooks
 			v := tkOracle(helper, hb, cs)
 			if hb != nil && v.applicable && !v.byValue {
 				helperVsNil["helper-not-asked"]++
@@ -828,6 +1135,139 @@ func propC20(c *Ctx) {
 			}
 		}
 	}
+	for it := 0; it < iters; it++ {
+		helper := helpers[c.R.Intn(6)]
+		typ := types[c.R.Intn(len(types))]
+		n := c.R.Intn(5)
+		if it%10 == 0 {
+			n = 1
+		}
+		// a custom TypeHelper in about a third of the Unmarshal-helper runs (the Marshal helpers take none)
+		var hb *tkHelperBeh
+		if helper[0] == 'U' && c.R.Intn(3) == 0 {
+			hb = &tkHelperBeh{start: []int{0, 0, 1, 2, 5}[c.R.Intn(5)], addArg: c.R.Intn(3) == 0, eqMod: []int{0, 0, 2, 3}[c.R.Intn(4)]}
+			hb.emptyIs = []int{0, hb.start, hb.start, 1, 2, 7}[c.R.Intn(6)]
+			withHelper++
+		}
+		var cs []string
+		for i := 0; i < n; i++ {
+			cs = append(cs, genCase(helper[0] == 'M', hb))
+		}
+		runLine(helper, typ, hb, cs)
+	}
+	// ---- deterministic tables (no stride, no probability): every hand-picked datum and error text against each of its
+	// near misses; every panic value kind in the marshaler, the unmarshaler and both hooks, for all six helpers
+	nearOf := func(b []byte) [][]byte {
+		var out [][]byte
+		add := func(x []byte) {
+			if !bytes.Equal(x, b) {
+				out = append(out, x)
+			}
+		}
+		cat := func(parts ...[]byte) []byte { return bytes.Join(parts, nil) }
+		add(bytes.ReplaceAll(b, []byte("\r\n"), []byte("\n")))
+		add(bytes.ReplaceAll(bytes.ReplaceAll(b, []byte("\r\n"), []byte("\n")), []byte("\n"), []byte("\r\n")))
+		add(bytes.ReplaceAll(b, []byte("\n"), []byte("\r")))
+		add(bytes.ReplaceAll(b, []byte("\t"), []byte(" ")))
+		add(bytes.ReplaceAll(b, []byte(" "), []byte("\u00a0")))
+		add(bytes.ReplaceAll(b, []byte(" "), nil))
+		add(bytes.ReplaceAll(b, []byte("\""), []byte("'")))
+		add(bytes.ReplaceAll(b, []byte("é"), []byte("e\u0301")))
+		add(bytes.ReplaceAll(b, []byte("é"), []byte("e")))
+		add(bytes.ReplaceAll(b, []byte(": "), []byte(":")))
+		add(bytes.ReplaceAll(b, []byte(":"), []byte(": ")))
+		for _, w := range []string{"\n", "\r\n", "\r", " ", "\t", "\x00", "\ufeff", "!", "."} {
+			add(cat(b, []byte(w)))
+			add(cat([]byte(w), b))
+		}
+		add(bytes.ToUpper(b))
+		add(bytes.ToLower(b))
+		add(bytes.TrimSpace(b))
+		add(bytes.TrimRight(b, "\n"))
+		if len(b) > 0 {
+			add(b[:len(b)-1])
+			add(b[1:])
+			add(cat(b, b[len(b)-1:]))
+		}
+		return out
+	}
+	datums := [][]byte{[]byte("abc"), []byte("x"), []byte("{\"a\":1}"), []byte("a\nb"), []byte("a\r\nb"), []byte("line\n"), []byte("tab\there \"q\""), []byte("héllo wörld ✓"), {0, 0xff, '\n'},
+		[]byte("{\"k\": \"v\\n\",\n\t\"n\": [1, 2]}"), []byte(" padded "), []byte("two\r\nlines\r\n")}
+	tn := 0
+	for di, d := range datums {
+		for _, nm := range nearOf(d) {
+			for hi, helper := range []string{"MT", "MB", "MJ"} {
+				tn++
+				typ := []string{"tv", "ptp"}[(di+hi)%2]
+				runLine(helper, typ, nil, []string{"0/n/n/-/d:" + hx(d) + "/o:_/" + hx(nm) + "/0"})                                                // produced d, expected the near miss
+				runLine(helper, typ, nil, []string{"0/o/o/-/d:" + hx(nm) + "/o:_/" + hx(d) + "/0", "1/n/n/-/d:" + hx(d) + "/o:_/" + hx(d) + "/0"}) // and the reverse
+			}
+		}
+	}
+	for mi, m := range msgs {
+		for _, nm := range append(nearOf([]byte(m)), []byte(m)) {
+			for ki, kind := range []string{"eq", "pre", "suf"} {
+				tn++
+				helper := helpers[(mi+ki+tn)%6]
+				cs := "0/n/n/" + kind + ":" + hx(nm) + "/e:" + hxs(m) + ":nil/e:" + hxs(m) + ":_/nil/0"
+				runLine(helper, []string{"tv", "ptp"}[tn%2], nil, []string{cs})
+				runLine(helper, "tv", nil, []string{"0/n/n/" + kind + ":" + hxs(m) + "/e:" + hx(nm) + ":nil/e:" + hx(nm) + ":_/nil/0"})
+			}
+		}
+	}
+	for pi, pt := range append(append([]string{}, tkPanicTexts...), msgs...) {
+		for hi, helper := range helpers {
+			typ := []string{"tv", "ptp"}[(pi+hi)%2]
+			h := hxs(pt)
+			tn++
+			runLine(helper, typ, nil, []string{"0/n/n/-/p:" + h + "/p:" + h + ":_/-/0"})                                                                         // unexpected panic: reported, never escapes
+			runLine(helper, typ, nil, []string{"0/o/o/pre:" + hxs("panic: ") + "/p:" + h + "/p:" + h + ":_/nil/0", "0/n/n/any/p:" + h + "/p:" + h + ":1/nil/0"}) // expected
+			runLine(helper, typ, nil, []string{"0/n/n/pre:" + hxs("panic: "+pt+"\n") + "/p:" + h + "/p:" + h + ":_/nil/0"})
+			// panicking hooks: the value kind rotates with the case's number
+			runLine(helper, typ, nil, []string{fmt.Sprintf("0/p/n/-/d:61/o:%d/61/%d", pi, pi), fmt.Sprintf("0/n/p/-/d:61/o:%d/61/%d", pi, pi), fmt.Sprintf("0/p/p/any/e:%s:nil/e:%s:_/nil/%d", h, h, pi)})
+		}
+	}
+	// hooks that edit the case: complete a wrong literal, spoil a right one, set the predicate, write the constraint
+	// (too late to matter), After writes last, absent hooks write nothing - all six helpers
+	for hi, helper := range helpers {
+		typ := []string{"tv", "ptp"}[hi%2]
+		for di, d := range datums {
+			if di%3 != hi%3 {
+				continue
+			}
+			tn++
+			w, g, m := hx(append(append([]byte{}, d...), '?')), hx(d), hxs(msgs[di%len(msgs)])
+			runLine(helper, typ, nil, []string{
+				"0/o;d=" + g + "/n/-/d:" + g + "/o:0/" + w + "/0",             // Before completes Data
+				"0/o;d=" + w + "/n/-/d:" + g + "/o:0/" + g + "/0",             // Before spoils Data
+				"0/o;d=" + w + "/o;d=" + g + "/-/d:" + g + "/o:0/" + w + "/0", // After writes last
+				"0/o/o;d=" + w + "/-/d:" + g + "/o:0/" + g + "/0",             // After spoils
+			})
+			runLine(helper, typ, nil, []string{
+				"0/o;r=eq:" + m + "/n/-/e:" + m + ":nil/e:" + m + ":_/nil/0", // Before sets the expected error
+				"0/o;r=-/n/eq:" + m + "/e:" + m + ":nil/e:" + m + ":_/nil/0", // Before removes it: the error is unexpected
+				"0/n/o;r=any/-/e:" + m + ":nil/e:" + m + ":_/nil/0",          // After sets it
+				"0/o;r=eq:" + m + "/o;r=pre:" + hxs("zz") + "/-/e:" + m + ":nil/e:" + m + ":_/nil/0",
+			})
+			runLine(helper, typ, nil, []string{
+				"0/o;c=1/n/-/d:" + g + "/o:0/" + w + "/1", "0/o;c=2/n/-/d:" + g + "/o:0/" + w + "/1", "1/o;c=2/o;c=2/-/d:" + g + "/o:0/" + w + "/1", "2/o;c=1/n/-/d:" + g + "/o:0/" + w + "/1", // a written Constraint comes too late
+			})
+			runLine(helper, typ, nil, []string{
+				fmt.Sprintf("0/o;v=%d/n/-/d:%s/o:%d/%s/%d", di, g, di, g, di+1),         // Before completes Value
+				fmt.Sprintf("0/o;v=%d/n/-/d:%s/o:%d/%s/%d", di+1, g, di, g, di),         // Before spoils Value
+				fmt.Sprintf("0/e;v=%d;d=%s/n/-/d:%s/o:%d/%s/%d", di, g, g, di, w, di+1), // a failing hook is reported whatever it wrote
+			})
+			if helper[0] == 'U' {
+				hbs := tkHelperBeh{start: 1, addArg: true, emptyIs: 0, eqMod: 0}
+				runLine(helper, typ, &hbs, []string{
+					fmt.Sprintf("0/o;v=%d/n/-/d:nil/o:_/nil/%d", 2, 5), // New gets the Value Before wrote: receiver 1+2, expected 2 -> reported
+					fmt.Sprintf("0/o;v=%d/n/-/d:nil/o:_/nil/%d", 0, 5), // receiver 1+0, expected 0 -> reported
+					fmt.Sprintf("0/o;v=%d/n/-/d:nil/o:3/nil/%d", 3, 5), // stored 3, expected 3
+				})
+			}
+		}
+	}
+	c.Note("deterministic tables: %d table rows (data near misses, error-text near misses, panic value kinds)", tn)
 	c.Note("K1 instances seen: %d", k1Seen)
 	c.Note("runs with a custom TypeHelper: %d; applicable cases by verdict: %v", withHelper, helperVsNil)
 }
